@@ -729,8 +729,16 @@ func (t *Terminal) readLine() (line string, err error) {
 		lineOk := false
 		for !lineOk {
 			var key rune
+			held := len(rest)
 			key, rest = bytesToKey(rest, t.pasteActive)
 			if key == utf8.RuneError {
+				if len(rest) < held {
+					// an undecodable byte (or U+FFFD itself) was consumed: it is
+					// skipped, the input behind it is looked at now and not
+					// when the next Read returns
+					continue
+				}
+				// nothing decodable yet: wait for more input
 				break
 			}
 			if !t.pasteActive {
